@@ -3,6 +3,7 @@
    calls of the code as it is (every vertex a link names or just stopped naming, whatever the
    flag); Cache.v is the memo (copy on hit, copy on insert, insert only while the flag is on). *)
 From EG Require Import Base State Nbrs Struct RefProofs Cache CacheProofs.
+From EG Require Import TravFaults ColdCopy.
 
 (* THE PROPERTY: in every history interleaving every public mutator (called on either end, on the
    edge itself, explicit.unlink, builders being sequences of these), toggles of the caching flag
@@ -83,6 +84,29 @@ Theorem C05_cached_traversal_leaves_graph_and_coherence : forall filt s ou start
    ulaws s' = ulaws s /\ lapp s' = lapp s /\ kind s' = kind s /\ caching s' = caching s).
 Proof. intros. apply cached_bft_equals_uncached; assumption. Qed.
 
+(* a COPY of the graph (pickle round trip, copy.copy / deepcopy: Vertex.__getstate__ hands out the state with an empty
+   memo) is the same heap with every memo emptied; it is well-formed and coherent, and answers every query, traversal and
+   search exactly as the original does - whatever the original's memos held *)
+Theorem C05_a_copy_is_the_same_graph_with_cold_memos : forall filt s,
+  same_graph s (cold s) /\ (wf s -> wf (cold s)) /\ Coh filt (cold s).
+Proof. intros; split; [apply cold_same_graph | split; [apply cold_wf | apply cold_Coh]]. Qed.
+Theorem C05_a_copy_answers_like_the_original : forall filt s ou start d u fv fr m fuel,
+  wf s -> Coh filt s ->
+  snd (neighbors_c filt (cold s) start d u fv) = snd (neighbors_c filt s start d u fv) /\
+  snd (bft_st state (nbs_c filt d u fv) (t_uni (cold s) ou) fr fuel (cold s) start)
+    = snd (bft_st state (nbs_c filt d u fv) (t_uni s ou) fr fuel s start) /\
+  snd (dft_rec_st state (nbs_c filt d u fv) (t_uni (cold s) ou) fr fuel (cold s) start)
+    = snd (dft_rec_st state (nbs_c filt d u fv) (t_uni s ou) fr fuel s start) /\
+  snd (dft_iter_st state (nbs_c filt d u fv) (t_uni (cold s) ou) fr fuel (cold s) start)
+    = snd (dft_iter_st state (nbs_c filt d u fv) (t_uni s ou) fr fuel s start) /\
+  snd (bfs_st state (nbs_c filt Fwd UErr None) (t_uni (cold s) ou) m fuel (cold s) start)
+    = snd (bfs_st state (nbs_c filt Fwd UErr None) (t_uni s ou) m fuel s start) /\
+  snd (dfs_rec_st state (nbs_c filt Fwd UErr None) (t_uni (cold s) ou) m fuel (cold s) start)
+    = snd (dfs_rec_st state (nbs_c filt Fwd UErr None) (t_uni s ou) m fuel s start) /\
+  snd (dfs_iter_st state (nbs_c filt Fwd UErr None) (t_uni (cold s) ou) m fuel (cold s) start)
+    = snd (dfs_iter_st state (nbs_c filt Fwd UErr None) (t_uni s ou) m fuel s start).
+Proof. exact cold_copy_answers_like_the_original. Qed.
+
 Print Assumptions C05_cached_answers_equal_recomputed.
 Print Assumptions C05_answers_independent_of_the_flag.
 Print Assumptions C05_coherence_on_every_reachable_state.
@@ -98,3 +122,6 @@ Print Assumptions C05_cached_dfs_recursive_equals_uncached.
 Print Assumptions C05_cached_dfs_iterative_equals_uncached.
 Print Assumptions C05_cached_traversal_leaves_graph_and_coherence.
 Print Assumptions cached_traversal_example.
+Print Assumptions C05_a_copy_is_the_same_graph_with_cold_memos.
+Print Assumptions C05_a_copy_answers_like_the_original.
+Print Assumptions cold_copy_example.
